@@ -14,6 +14,7 @@ Lemmas (units lemma.cbo.*.<side>, proved by z3 from the BITS axioms, the definit
 lemma.galois/galois2):
   child-exists   closed K, D, In(K,y,D), D != K  ->  j := jmin(K,D):  y <= j < W, valid(K,j), closed CJ(K,j), In(CJ(K,j), j+1, D)
   child-inside   closed K, y <= j < W, valid(K,j), In(CJ(K,j), j+1, D)  ->  In(K,y,D), D != K, jmin(K,D) = j
+  child-index    closed K, 0 <= j < W  ->  In(CJ(K,j), j, D) = In(CJ(K,j), j+1, D)         (j is in CJ(K,j): entering the child at j or at j+1 is the same subtree)
   leaf           closed K, D, In(K,W,D) -> D = K;    closed K, D, K = full set, K <= D -> D = K
   root           closed D -> In(cl(0), 0, D);        up(0) = the full set of the other side; closed K with up(K) = 0 is the full set
   skip-sound     closed K, N <= CJ(K,j), canon(K,j)  ->  (N & below(j)) <= K          (the inherited failed-set test never skips a canonical child)
@@ -101,6 +102,12 @@ class CbO:
         T = self
         return Implies(And(T.closed(K), 0 <= y, y <= j, j < T.W, T.valid(K, j), T.In(T.CJ(K, j), j + 1, D)),
                        And(T.In(K, y, D), D != K, T.jmin(K, D) == j))
+
+    def st_child_index(self, K, j, D):
+        """the child of attribute j contains j, so its subtree is the same whether it is entered with index j or j + 1
+        (the code may push either: with index j the child looks at attribute j once more and skips it, it is in its key)"""
+        T = self
+        return Implies(And(T.closed(K), 0 <= j, j < T.W), T.In(T.CJ(K, j), j, D) == T.In(T.CJ(K, j), j + 1, D))
 
     def st_leaf(self, K, D):
         T = self
@@ -252,6 +259,10 @@ def _child_inside(dual):
             path.oblige('jmin-le', 'lemma', tz(x) <= j)
             path.oblige('jmin-ge', 'lemma', tz(x) >= j)
             path.oblige('child-inside', 'lemma', T.st_child_inside(K, y, j, D))
+            # ---- child-index (independent of the assumptions above: stated as an implication, proved from union)
+            K2, D2, j2 = Ints('K2 D2 j2')
+            path.assume(T.st_union(K2, j2))
+            path.oblige('child-index', 'lemma', T.st_child_index(K2, j2, D2))
         return axioms, prove
     return make
 
